@@ -362,6 +362,15 @@ theorem gt_short_rejected (buf : Bytes) (h : buf.length < 384) : unmarshalGT buf
 
 example : unmarshalGT (List.replicate 383 0) = .err .short := gt_short_rejected _ (by rw [List.length_replicate]; omega)
 
+/-- recorded, not a clause of the property (C02/C08 rely on knowing it): decoding is NOT injective
+on byte strings — bytes after the element are ignored, and the G2 identity is accepted from
+`0x00‖anything` and from `0x01‖0^128` besides its canonical one-byte encoding.  (Since /repo 1d47f6b
+`x + p` is no longer a second encoding: `g1_unmarshal_ok_iff`.) -/
+theorem decode_not_injective_witnesses :
+    unmarshalG1 (marshalG1 g1gen ++ [0]) = unmarshalG1 (marshalG1 g1gen) ∧
+    unmarshalG2 (1 :: List.replicate 128 0) = .ok .inf ∧
+    unmarshalG2 [0, 7] = .ok .inf ∧ unmarshalG2 [0] = .ok .inf := by decide +kernel
+
 /-! ## 6. scalars decode only from in-range values of the exact length -/
 
 theorem scalar_in_range (buf : Bytes) :
